@@ -177,6 +177,8 @@ def judge_table(chk, forms, cases, recs, known_features, cov):
             stats["assembler-or-validator-refuses"] += 1
             continue   # which forms exist is C13's business
         stats["encoded"] += 1
+        if r.get("stale"):
+            chk.violation("T:%s:answer-depends-on-previous-content-of-out" % kb, "query_rw_info answers differently %s for %s" % (r["stale"][:600], G.case_line(c)), replay)
         if r["rw"] != 0:
             chk.violation("T:%s:query_rw_info-fails" % kb, "the assembler encodes %s (%s) but query_rw_info returns error %d" % (G.case_line(c), r["bytes"], r["rw"]), replay)
             continue
